@@ -149,6 +149,9 @@ mut("fx-bindfun-inplace", ["C07", "C10"], "qlasskit/ast2logic/env.py", "bind_fun
     lambda t: rewrite_in(t, "Env.bind_function.arg_rename", lambda n: isinstance(n, ast.Return), lambda n: [parse_stmt("a.name = f'{deff[0]}_{a.name}'"), parse_stmt("return a")])
 )
 
+mut("fx-rebind-inplace", ["C05", "C10"], "qlasskit/ast2logic/env.py", "rebind updates the shared Arg object instead of replacing it")(
+    replace_stmt("Env.bind", "self.bindings.remove(self[bb.name])", "self[bb.name].bitvec = bb.bitvec")
+)
 
 @mut("fx-module-cache", ["C09", "C10"], "qlasskit/types/__init__.py", "constant inference memoised in a module-level dict")
 def _m_cache(tree):
